@@ -125,12 +125,10 @@ def escV (a : Bytes) (pos off : Nat) : Option (Nat × Nat) :=
   else
     let dist := uDist a pos off
     if dist < 6 then none                               -- cmp esi,6 ; jae LBB0_11 / jb LBB0_30
-    else match uEscape a (pos + off) dist with          -- LBB0_11: add r13,r15 ...
-      | none => none
-      | some (cp, adv) =>
-        match utf8LenV cp with
-        | none => none
-        | some n => some (off + n, pos + off + adv)     -- LBB0_25: add r14,r15 ; add r14,rsi
+    else                                                -- LBB0_11 (`add r13,r15` ...), LBB0_12, LBB0_18 .. LBB0_23
+      (uEscape a (pos + off) dist).bind fun r =>        --   r = (code point, source bytes taken)
+        (utf8LenV r.1).map fun n =>
+          (off + n, pos + off + r.2)                    -- LBB0_25: add r14,r15 ; add r14,rsi ; rax = r13 + 6 (+ 12)
 
 /-- The loop of V.  `pos` = `r13` = `rax` (index into `a`), `dlen` = `r14`; one unit of fuel per iteration.
     The length limit is tested at LBB0_29 only, i.e. once per iteration, on the *next* window position. -/
@@ -169,12 +167,10 @@ def escC (a : Bytes) (pos off : Nat) : Option (List UInt8 × Nat) :=
   else
     let dist := uDist a pos off
     if dist < 6 then none                               -- cmp r14d,6 ; jae LBB0_14 / jb LBB0_2
-    else match uEscape a (pos + off) dist with
-      | none => none
-      | some (cp, adv) =>
-        match encodeUTF8 cp with                        -- LBB0_20: add rsi,r11 ; stores ; add rsi,{1,2,3,4}
-        | none => none
-        | some bs => some (bs, pos + off + adv)
+    else                                                -- LBB0_14 .. LBB0_20
+      (uEscape a (pos + off) dist).bind fun r =>        --   r = (code point, source bytes taken)
+        (encodeUTF8 r.1).map fun bs =>                  -- LBB0_20: add rsi,r11 ; stores ; add rsi,{1,2,3,4}
+          (bs, pos + off + r.2)                         --   r13 = rdi + 6 (+ 12)
 
 /-- The loop of C.  `pos` = `rdi` = `r13`; `out` = the bytes `dst[0, rsi - dst)`.
     Every iteration begins (prologue, LBB0_29) with `vmovdqu ymm,[r13]; vmovdqu [rsi],ymm`: the whole window is stored at
